@@ -21,11 +21,17 @@ type oplProg struct {
 	Engine bool   `json:"engine"` // also evaluate through a real server configured with the program
 }
 
+type oplTypeProg struct {
+	Src    string   `json:"src"`
+	Tuples []jtuple `json:"tuples"`
+}
+
 type oplIn struct {
-	Progs []oplProg  `json:"progs"`
-	Lex   [][]string `json:"lex"`   // character sequences of OplLex.tla
-	Texts []string   `json:"texts"` // whole programs / byte strings (base64 not needed: JSON strings, invalid UTF-8 as \u escapes is not possible, see Raw)
-	Raw   [][]int    `json:"raw"`   // byte strings given as integer arrays
+	TypeProgs []oplTypeProg `json:"typeprogs"`
+	Progs     []oplProg     `json:"progs"`
+	Lex       [][]string    `json:"lex"`   // character sequences of OplLex.tla
+	Texts     []string      `json:"texts"` // whole programs / byte strings (base64 not needed: JSON strings, invalid UTF-8 as \u escapes is not possible, see Raw)
+	Raw       [][]int       `json:"raw"`   // byte strings given as integer arrays
 }
 
 var oplChar = map[string]string{"E": "é", "B": "\x80"}
@@ -227,6 +233,57 @@ func progObs(t *testing.T, p oplProg) map[string]any {
 	return res
 }
 
+// typeProgObs: parse errors with the text they point at; for accepted programs
+// the errors of checks on relationships that conform to the declared types.
+func typeProgObs(t *testing.T, p oplTypeProg) map[string]any {
+	res := map[string]any{}
+	defer func() {
+		if r := recover(); r != nil {
+			res["panic"] = fmt.Sprint(r)
+		}
+	}()
+	nss, errs := schema.Parse(p.Src)
+	var pe []map[string]any
+	for _, e := range errs {
+		s, en := e.VerifSpan()
+		txt := ""
+		if s >= 0 && en <= len(p.Src) && s <= en {
+			txt = p.Src[s:en]
+		}
+		pe = append(pe, map[string]any{"msg": e.ToAPI().Message, "at": txt})
+	}
+	res["errors"] = pe
+	if len(errs) > 0 {
+		return res
+	}
+	reg := newRegistry(t, regOpts{opl: p.Src, gdepth: 12})
+	var stored []*ketoapi.RelationTuple
+	for _, jt := range p.Tuples {
+		stored = append(stored, jt.api())
+	}
+	writeOrdered(t, reg, stored)
+	var checkErrs []string
+	n := 0
+	for _, ns := range nss {
+		for _, rel := range ns.Relations {
+			for _, obj := range []string{"d", "d2", "g", "h", "u1"} {
+				for _, sub := range []*ketoapi.RelationTuple{{SubjectID: ptr("u1")}, {SubjectSet: &ketoapi.SubjectSet{Namespace: "U", Object: "u1"}}} {
+					q := &ketoapi.RelationTuple{Namespace: ns.Name, Object: obj, Relation: rel.Name, SubjectID: sub.SubjectID, SubjectSet: sub.SubjectSet}
+					ctx, cancel := context.WithCancel(context.Background())
+					r := reg.PermissionEngine().CheckRelationTuple(ctx, internalTuple(t, reg, q), 0)
+					cancel()
+					n++
+					if r.Err != nil {
+						checkErrs = append(checkErrs, fmt.Sprintf("%s: %v", q.String(), r.Err))
+					}
+				}
+			}
+		}
+	}
+	res["checks"], res["check_errors"] = n, checkErrs
+	return res
+}
+
 func init() { families["opl"] = famOPL }
 
 func famOPL(t *testing.T) {
@@ -237,6 +294,16 @@ func famOPL(t *testing.T) {
 	si, sn := shard()
 	e := newStoreEnv(t, storeNamespaces(), *fSeed)
 	e.sx = schema.NewHandler(e.reg)
+	for i, p := range in.TypeProgs {
+		if i%sn != si {
+			continue
+		}
+		p := p
+		var r map[string]any
+		t.Run(fmt.Sprintf("tp%d", i), func(t *testing.T) { r = typeProgObs(t, p) })
+		r["typeprog"] = i
+		out.write(r)
+	}
 	for i, p := range in.Progs {
 		if i%sn != si {
 			continue
